@@ -1,6 +1,7 @@
 """Clauses about the payment lifecycle coroutine (LC).  Each function takes the rule id to report
 under, so several properties can cite the same clause."""
 import re
+import names as NM
 from mir import Call, canon, loc, strip, walk, alts, show
 import lib
 import model_lc as ml
@@ -385,7 +386,7 @@ def a3_one_lifecycle_per_entry(C, rep, rid):
             clo_local = st["lhs"]["l"]
             for c in pb.calls:
                 if c.name == "std::collections::hash_map::Entry::or_insert_with" and any(a["k"] in ("move", "copy") and a["pl"]["l"] == clo_local for a in c.args):
-                    good = "htlc_manager::PaymentState" in c.full
+                    good = NM.PS() in c.full
         rep.ob(rid, good, F.root_of(rb), "lifecycle is created inside Entry::or_insert_with's closure", where=where, how="closure argument of or_insert_with on the payments table",
                detail="" if good else "the lifecycle is started outside the vacant-entry initialiser: a second lifecycle for a live entry becomes possible")
         # and it is handed to tokio::spawn
